@@ -483,6 +483,9 @@ func WriteComment(w *formatting.IndentedWriter, comment string) {
 
 func WriteDocstring(w *formatting.IndentedWriter, comment string) {
 	comment = strings.TrimSpace(comment)
+	// keep the comment from terminating or corrupting the docstring literal
+	comment = strings.ReplaceAll(comment, "\\", "\\\\")
+	comment = strings.ReplaceAll(comment, "\"\"\"", "\\\"\\\"\\\"")
 	if strings.HasPrefix(comment, "\"") {
 		comment = " " + comment
 	}
